@@ -53,8 +53,10 @@ def oracle(ctx, specs, k, rnd, dups):
     # the merge as the pipeline performs it: on per-value types that went through the store encoding
     vs2 = [vals.build(s) for s in specs]
     try:
-        Ts = tinfer.infer_via_store(vs2, k)
+        Ts, vs2 = tinfer.infer_via_store_kept(vs2, k)
     except Exception:
+        return
+    if not vs2:
         return
     try:
         witnessed(Ts, vs2)
